@@ -15,32 +15,26 @@ Definition nonrootb (n : str) : bool := negb (eqb_str n [slash]).
 Lemma nonrootb_ok n : nonrootb n = true -> n <> [slash].
 Proof. unfold nonrootb. intro H. apply negb_true_iff in H. apply eqb_str_neq. exact H. Qed.
 
-Definition create_preb (c : cfg) (a : ns) (n : str) (d : content) : bool :=
+Definition create_preb (a : ns) (n : str) (d : content) : bool :=
   (clen d <? 10 ^ 40)
-  && match lookup a n with Some v => is_dir v | None => true end
-  && (match d with [] => true | _ => false end
-      || ((c_uid c =? 0) && (c_gid c =? 0) && eqb_str (c_uname c) [] && eqb_str (c_gname c) [])).
+  && match lookup a n with Some v => is_dir v | None => true end.
 
-Definition call_preb (c : cfg) (a : ns) (k : call) : bool :=
+Definition call_preb (a : ns) (k : call) : bool :=
   match k with
   | CMkdir n _ | CMkdirAll n _ | CChmod n _ | CChown n _ _ | CChtimes n _ _ => goodb n
   | CRemove n | CRemoveAll n => goodb n && nonrootb n
   | CRename x y => goodb x && goodb y && nonrootb y
-  | CCreateFile n d => goodb n && create_preb c a n d
+  | CCreateFile n d => goodb n && create_preb a n d
   | _ => false
   end.
 
-Lemma create_preb_sound c a n d : create_preb c a n d = true -> create_pre c a n d.
+Lemma create_preb_sound a n d : create_preb a n d = true -> create_pre a n d.
 Proof.
-  unfold create_preb, create_pre. intro H. apply andb_true_iff in H as [H H2]. apply andb_true_iff in H as [H0 H1].
-  split; [apply N.ltb_lt; exact H0|]. split.
-  - destruct (lookup a n); [exact H1|exact I].
-  - apply orb_true_iff in H2 as [H2|H2]; [left; destruct d; [reflexivity|discriminate]|right].
-    apply andb_true_iff in H2 as [H2 H5]. apply andb_true_iff in H2 as [H2 H4]. apply andb_true_iff in H2 as [H2 H3].
-    apply N.eqb_eq in H2, H3. apply eqb_str_eq in H4, H5. auto.
+  unfold create_preb, create_pre. intro H. apply andb_true_iff in H as [H0 H1].
+  split; [apply N.ltb_lt; exact H0|]. destruct (lookup a n); [exact H1|exact I].
 Qed.
 
-Lemma call_preb_sound c a k : call_preb c a k = true -> call_pre c a k.
+Lemma call_preb_sound a k : call_preb a k = true -> call_pre a k.
 Proof.
   destruct k; cbn [call_preb call_pre]; try discriminate; intro H.
   - apply goodb_good; exact H.
@@ -58,7 +52,7 @@ Qed.
 Fixpoint ok_runb (c : cfg) (s : sys) (r : list (call * env)) : bool :=
   match r with
   | [] => true
-  | (k, e) :: r' => forallb (fun x => 0 <? x) (ev_hb e) && call_preb c (abs s) k && ok_runb c (fst (step c (with_env s e) k)) r'
+  | (k, e) :: r' => forallb (fun x => 0 <? x) (ev_hb e) && call_preb (abs s) k && ok_runb c (fst (step c (with_env s e) k)) r'
   end.
 
 Lemma ok_runb_sound c r : forall s, ok_runb c s r = true -> ok_run c s r.
@@ -69,7 +63,18 @@ Proof.
 Qed.
 
 (* an instance: the 12 calls of T02Test.h2 after Initialize "/" (Mkdir, CreateFile with and without content, RemoveAll,
-   Remove, Rename onto a removed name, Chmod), run by a process with identity 0/0/""/"" *)
+   Remove, Rename onto a removed name, Chmod), run by a process with identity 7/8/"u"/"g" ... *)
+Definition s_init_t : sys := fst (step tcfg (with_env init_sys (e0 1)) (CInitialize [slash])).
+Example demo_history_any_identity : conforms tcfg s_init_t (tl h2) /\ Good true tcfg (final tcfg s_init_t (tl h2)).
+Proof.
+  apply T02_history.
+  - split; reflexivity.
+  - reflexivity.
+  - reflexivity.
+  - apply Good_init; reflexivity.
+  - apply ok_runb_sound. vm_compute. reflexivity.
+Qed.
+(* ... and by a process with identity 0/0/""/"" *)
 Definition s_init : sys := fst (step rcfg (with_env init_sys (e0 1)) (CInitialize [slash])).
 Example demo_history : conforms rcfg s_init (tl h2) /\ Good true rcfg (final rcfg s_init (tl h2)).
 Proof.
